@@ -172,7 +172,8 @@ def _halflife_to_int(halflife):
 
 def _times_to_int_array(times):
     times, _ = _convert_timestamp_to_tz_unaware(times)
-    return times.view(np.int64)
+    # nanoseconds, the unit of the integer halflife (arrays may come in s / ms / us)
+    return np.asarray(times).astype("datetime64[ns]").view(np.int64)
 
 
 @check_data_inputs_aligned("values, times")
